@@ -51,7 +51,7 @@ CLAIMS['C01'] = {
           'R1/R2 of every sink and cell carry the same (pair, strategy) sequence in input order; processed = min(n, max(1, maxReadPairs)); strategyYields[j] = accepted pairs = R1 records written; '
           'the reader stops at the first exhausted index. Model predicts the bytes of every output file and the counters for 274 (quick) / 9k (thorough) real libraries x 28 strategies.',
   'note': 'Modelled not verified: gzip, text decoding, file system, HandleLimiter (C19). Strategies and the reject-header builder are parameters (what a strategy extracts is C02, barcode correction C03, '
-          'header codec C04); their outcome class per pair is measured by calling the real code. A reject record that cannot be formatted (over-long library name) aborts the run loudly: outside the '
+          'header codec C04); their outcome class per pair is measured by calling the real code. A partial write (R1 serialised, R2 raising) is modelled and excluded from the theorems by step_ok, which is checked on the real code (C01_partial_write_refuted); prune-crossing per-cell libraries (> 10000 writes) are checked against the specification on the real files only. A reject record that cannot be formatted (over-long library name) aborts the run loudly: outside the '
           'precondition, recorded by C01_reject_crash_refuted. search() uses a Python transcription of Props/C01.v. No translator tie (K only).'}
 CLAIMS['C02'] = {
   'technique': 'Coq proof (Python-slice lemmas, induction over read tuples, vm_compute over the strategy table regenerated by reflection) + correspondence check against the real strategies',
